@@ -11,12 +11,31 @@ import (
 	"sync"
 	"time"
 
+	"context"
+
 	"ffverif/memongo"
 
 	"github.com/shiningrush/fastflow/pkg/entity"
 	"github.com/shiningrush/fastflow/pkg/entity/run"
+	"github.com/shiningrush/fastflow/pkg/event"
 	"github.com/shiningrush/fastflow/pkg/mod"
+	"github.com/shiningrush/goevent"
 )
+
+// gateBus replaces the process-wide event bus (goevent.SetEventBus is the library's documented hook): the
+// TaskCompleted notification an executor worker publishes at the very end of workerDo - after the run was
+// de-registered and its completion event handed to the parser - becomes a scheduling point, so that a
+// worker can be held between that hand-over and its return.  No handler is subscribed; events are dropped.
+type gateBus struct{ e *Engine }
+
+func (b *gateBus) Subscribe(h goevent.EventHandler) error { return nil }
+func (b *gateBus) Publish(ev goevent.Event) {
+	if tc, ok := ev.(*event.TaskCompleted); ok && tc.TaskIns != nil {
+		b.e.park("event", "event:TaskCompleted:"+tc.TaskIns.ID)
+	}
+}
+func (b *gateBus) PublishSync(ctx context.Context, ev goevent.Event) { b.Publish(ev) }
+func (b *gateBus) Close()                                            {}
 
 // ---------------------------------------------------------------- goroutine identity / census
 
@@ -160,6 +179,7 @@ func newEngine(w *World, rng *Rng, scen *Scenario) *Engine {
 	e.js = &jstore{e: e, real: w.Store}
 	mod.SetStore(e.js)
 	mod.SetCommander(&mod.DefCommander{})
+	goevent.SetEventBus(&gateBus{e: e})
 	return e
 }
 
